@@ -114,6 +114,25 @@ BREAK = {"k": "break"}
 CONTINUE = {"k": "continue"}
 def bind(n, e): return {"k": "bind", "n": n, "e": e}
 def comment(text): return {"k": "comment", "text": text}
+def match_(e, cases, default=None):
+    """cases: [(value expr (int / lit / strlit), body)]; default: body of `case _` or None"""
+    return {"k": "match", "e": e, "cases": [{"v": v, "body": b} for v, b in cases], "default": default or [], "hasdefault": 0 if default is None else 1}
+def _subst(e, name, by):
+    if isinstance(e, dict):
+        if e.get("k") == "ref" and e.get("n") == name:
+            return by
+        return {k: _subst(v, name, by) for k, v in e.items()}
+    if isinstance(e, list):
+        return [_subst(x, name, by) for x in e]
+    return e
+def forchain(conds, vals, t, mode="next", elseval=None, tmpl=None):
+    """for c_, v_ in zip(conds, vals): if c_: T <op> tmpl(v_); break  [else: T <op> elseval].
+    mode "bind": the body is the Python assignment `T = tmpl(v_)` (an intermediate value).  tmpl is an expression over ref("v_")
+    (printed once, in the loop body); `bes` are its instances per iteration, which is what the specification evaluates."""
+    tmpl = tmpl or ref("v_")
+    return {"k": "forchain", "conds": conds, "vals": vals, "t": t if isinstance(t, dict) else target(t), "mode": mode, "tmpl": tmpl,
+            "bes": [_subst(tmpl, "v_", v) for v in vals],
+            "haselse": 0 if elseval is None else 1, "elseval": elseval if elseval is not None else {"k": "int", "v": 0}}
 def local(n, ty, init, delayed=False): return {"k": "local", "n": n, "ty": ty, "init": init, "delayed": 1 if delayed else 0}
 def waitfor(n, allow_zero=False, via="std"):
     return {"k": "waitfor", "n": n if isinstance(n, dict) else {"k": "int", "v": n}, "allow_zero": 1 if allow_zero else 0, "via": via}
@@ -228,6 +247,25 @@ class Printer:
             elif k == "waitfor":
                 arg = self.expr(s["n"]) + (", allow_zero=True" if s["allow_zero"] else "")
                 out.append(f"{pad}await {'std' if s['via'] == 'std' else 'waiter'}.wait_for({arg})")
+            elif k == "match":
+                out.append(f"{pad}match {self.expr(s['e'])}:")
+                for c in s["cases"]:
+                    out.append(f"{pad}    case {self.expr(c['v'])}:")
+                    self.stmts(c["body"], ind + 2, out)
+                if s["hasdefault"]:
+                    out.append(f"{pad}    case _:")
+                    self.stmts(s["default"], ind + 2, out)
+            elif k == "forchain":
+                op = {"next": "<<=", "value": "@=", "push": "^=", "bind": "="}[s["mode"]]
+                cs = ", ".join(self.cond(c) for c in s["conds"])
+                vs = ", ".join(self.expr(v) for v in s["vals"])
+                out.append(f"{pad}for c_, v_ in zip([{cs}], [{vs}]):")
+                out.append(f"{pad}    if c_:")
+                out.append(f"{pad}        {self.target(s['t'])} {op} {self.expr(s['tmpl'])}")
+                out.append(f"{pad}        break")
+                if s["haselse"]:
+                    out.append(f"{pad}else:")
+                    out.append(f"{pad}    {self.target(s['t'])} {op} {self.expr(s['elseval'])}")
             elif k == "local":
                 extra = ", delayed_init=True" if s["delayed"] else ""
                 out.append(f'{pad}{s["n"]} = Signal[{ty_py(s["ty"])}]({self.expr(s["init"])}, name="{s["n"]}"{extra})')
@@ -327,6 +365,12 @@ class Printer:
                 self.augmented(s["el"], acc)
             elif s["k"] == "while":
                 self.augmented(s["body"], acc)
+            elif s["k"] == "match":
+                for c in s["cases"]:
+                    self.augmented(c["body"], acc)
+                self.augmented(s["default"], acc)
+            elif s["k"] == "forchain" and s["mode"] != "bind" and not s["t"]["path"] and s["t"]["obj"] not in self.portnames and s["t"]["obj"] not in locals_:
+                acc.add(s["t"]["obj"])
         return acc
 
 
